@@ -104,15 +104,23 @@ def run_case(case):
     malformed = kind.startswith('diag')
     res = {'funcs': [], 'fails': [], 'tri': False, 'zeros': 0}
     dyadic = all((x.denominator & (x.denominator - 1)) == 0 for row in W for x in row)
+    rep = case.get('rep')
+    dtype, order = (rep['dtype'], rep['order']) if rep else ('float64', 'C')
+    tol = cc.rep_tol(dtype)
     for name in FUNCS[kind]:
         generic = R is None and name in NEEDS_ROOT      # no rational cube root: float oracle, no Lean line
-        exact = binary or (R is None and not generic and dyadic)
+        exact = (binary or (R is None and not generic and dyadic)) and dtype != 'float32'
         if _TIMEOUTS.get(name, 0) >= 2:
             res['skipped'] = res.get('skipped', 0) + 1; continue
-        st, out = cc.run_bct(bct, name, Wf)
+        if rep:     # the same network stored in another dtype / memory layout; a fresh array per call, never normalised by a copy
+            st, out = cc.run_bct(bct, name, cc.represent(Wf, dtype, order), copy=False)
+        else:
+            st, out = cc.run_bct(bct, name, Wf)
         if st == 'timeout':
             _TIMEOUTS[name] = _TIMEOUTS.get(name, 0) + 1
-        res['funcs'].append((name, st, out, exact, not generic))
+        if rep and st == 'exc' and cc.rejected_exc(dtype, out):
+            res['rejected'] = res.get('rejected', 0) + 1; continue
+        res['funcs'].append((name, st, out, exact, not generic and not rep))
         if malformed:
             continue
         if st == 'exc':
@@ -123,7 +131,7 @@ def run_case(case):
         if name.startswith('trans_') and exp[0][0] is None:
             res['undef'] = res.get('undef', 0) + 1     # no connected triple: 0/0, no claim (the model still has to agree with the code)
             continue
-        if not all(cc.same_vec(p, e, exact) for p, e in zip(out, exp)) or len(out) != len(exp):
+        if not all(cc.same_vec(p, e, exact, tol) for p, e in zip(out, exp)) or len(out) != len(exp):
             res['fails'].append((name, 'definition', {'returned': out, 'expected': [[None if x is None else str(x) for x in v] for v in exp]}))
         zn = zero_nodes(name, W)
         if zn is not None:
@@ -132,7 +140,7 @@ def run_case(case):
             if bad:
                 res['fails'].append((name, 'zero-case', {'nodes(vector,node,value)': bad[:5]}))
         lo = -1.0 if name == 'cc_sign_costantini' and kind in ('su', 'sdy', 'gsu') else 0.0
-        eps = 0.0 if exact else cc.TOL
+        eps = 0.0 if exact else tol
         vals = [x for v in out for x in v if x is not None]
         if name.startswith('cc_') and any(x is None for v in out for x in v):
             res['fails'].append((name, 'range', {'returned': out, 'why': 'non-finite value'}))
@@ -220,6 +228,8 @@ def gen_cases(rs, tier):
                 if rs.rand() < .5:
                     M[i][i] = F(1)
             add(kind, M, 'malformed-diag')
+    cases += cc.add_reps(rs, [c for c in cases if not c['kind'].startswith('diag')], .3 if thorough else .12,
+                         ('bu', 'bd'), ('wu', 'wd', 'su', 'sdy', 'gwu', 'gwd', 'gsu'))
     return cases
 
 
@@ -257,8 +267,13 @@ def main():
             ck.count('triangle-free matrices')
         for name, pred, info in r['fails']:
             if pred in PREDS:
-                ck.violation(cc.PUBLIC[name], pred, {'case': c, 'function': name, 'info': info}, {'function': name, 'kind': c['kind']})
+                ck.violation(cc.PUBLIC[name], pred, {'case': c, 'function': name, 'info': info},
+                             {'function': name, 'kind': c['kind'], 'dtype': (c.get('rep') or {}).get('dtype', 'float64'),
+                              'order': (c.get('rep') or {}).get('order', 'C')})
         ck.count('calls skipped after repeated timeouts', r.get('skipped', 0))
+        if c.get('rep'):
+            ck.count('representation:%s/%s' % (c['rep']['dtype'], c['rep']['order']))
+            ck.count('storage type rejected by the routine (OverflowError on int / TypeError on bool): no claim', r.get('rejected', 0))
         for name, st, out, exact, tolean in r['funcs']:
             ck.count('calls:' + name); ck.count('status:' + st)
             stat.setdefault(name, {'ok': 0, 'timeout': 0, 'exc': 0})[st] += 1
